@@ -365,6 +365,18 @@ def rule_R4(ctx, f):
                                     preds = {strip_generics(b.bool_edges(bj)[0][1]).split("::")[-1] for bj in doms if b.bool_edges(bj)[0][0] == "call"}
                                     inf_ok = {"is_sign_positive", "is_infinite"} <= preds
                                 guard = guard and inf_ok
+                # the flag describes ONE sample: it starts as false for every metric of the family (initialised inside the per-metric loop, on every path to the bucket loop)
+                fresh = False
+                for bi in b.reachable_blocks():
+                    be = b.bool_edges(bi)
+                    if be and b.dominates(bi, ci.bb):
+                        cnd = be[0]
+                        if cnd[0] == "var" and b.local_ty(cnd[1]) == "bool":
+                            inits = [dd[1] for dd in b.defs()[cnd[1]] if dd[0] == "assign" and dd[3].get("ops") and dd[3]["ops"][0].get("val") == "false"]
+                            region = b.reach(arms["HISTOGRAM"], avoid_blocks=stop)
+                            fresh = bool(inits) and all(x in region for x in inits) and b.all_paths_pass(arms["HISTOGRAM"], inits, dst_set={cb.bb, ci.bb})
+                ctx.ob(rid, "HISTOGRAM|inf-flag-per-sample", fresh,
+                       "the `+Inf seen` flag must be reset to false for every sample of the family (inside the per-metric loop, before its buckets are written)", site=ci.span)
                 ctx.ob(rid, "HISTOGRAM|inf-line", oki and guard, "the implicit +Inf bucket must be written with the sample count exactly when no explicit +Inf bound was seen", site=ci.span)
                 d = ds[sm[0]]
                 ctx.ob(rid, "HISTOGRAM|sum-line", d[1] is None and not d[4] and is_call(d[3], ["get_sample_sum", "sample_sum"]) and h_of(d[3][2][0]), "_sum must carry get_sample_sum()", site=cs.span)
